@@ -71,6 +71,7 @@ type rpIn struct {
 type rpItem struct {
 	Txs     []rpTxDesc `json:"txs"`
 	Restart bool       `json:"restart"`
+	Path    string     `json:"path"` // how replica B ingests this block: "" / addblock | exec-submit | headers-addblock
 }
 
 // ------------------------------------------------------------------------------------------------ ledger
@@ -148,8 +149,12 @@ func rpDigest(res store.ExecuteResult, txs []*types.Transaction) map[string]inte
 	for _, n := range res.Notify {
 		b, _ := json.Marshal(n.Notify)
 		nh := sha256.Sum256(b)
-		notes = append(notes, map[string]interface{}{"tx": n.TxHash.ToHexString()[:12], "state": n.State, "gas": n.GasConsumed, "n": len(n.Notify),
-			"events": hex.EncodeToString(nh[:8]), "created": n.CreatedContract.ToHexString()})
+		note := map[string]interface{}{"tx": n.TxHash.ToHexString()[:12], "state": n.State, "gas": n.GasConsumed, "n": len(n.Notify),
+			"events": hex.EncodeToString(nh[:8]), "created": n.CreatedContract.ToHexString()}
+		if len(b) <= 400 {
+			note["ev"] = string(b)
+		}
+		notes = append(notes, note)
 	}
 	return map[string]interface{}{"hash": res.Hash.ToHexString(), "root": res.MerkleRoot.ToHexString(), "nwrites": len(kvs),
 		"writes": hex.EncodeToString(h.Sum(nil))[:24], "notify": notes}
@@ -369,6 +374,29 @@ func (a *rpA) buildTx(d rpTxDesc, evmNonce *uint64) (*types.Transaction, string)
 		vhMust(err)
 		mt.Nonce = a.nonce
 		mt.GasLimit = rpGasLimit
+		tx, err := rpRawTx(mt, s)
+		if err != nil {
+			return nil, err.Error()
+		}
+		return tx, ""
+	case "envhash", "envctx", "envhdr": // NeoVM scripts that publish what they read from the execution environment of their block
+		sys := func(names ...string) (out []byte) {
+			for _, n := range names {
+				out = append(append(out, 0x68, byte(len(n))), []byte(n)...)
+			}
+			return
+		}
+		var code []byte
+		switch d.Kind {
+		case "envhash":
+			code = sys(oneovm.RUNTIME_GETCURRENTBLOCKHASH_NAME, oneovm.RUNTIME_NOTIFY_NAME)
+		case "envctx":
+			code = sys(oneovm.RUNTIME_GETTIME_NAME, oneovm.RUNTIME_NOTIFY_NAME, oneovm.BLOCKCHAIN_GETHEIGHT_NAME, oneovm.RUNTIME_NOTIFY_NAME,
+				oneovm.GETSCRIPTCONTAINER_NAME, oneovm.TRANSACTION_GETHASH_NAME, oneovm.RUNTIME_NOTIFY_NAME)
+		case "envhdr":
+			code = sys(oneovm.BLOCKCHAIN_GETHEIGHT_NAME, oneovm.BLOCKCHAIN_GETHEADER_NAME, oneovm.HEADER_GETHASH_NAME, oneovm.RUNTIME_NOTIFY_NAME)
+		}
+		mt := &types.MutableTransaction{GasLimit: rpGasLimit, TxType: types.InvokeNeo, Nonce: a.nonce, Payload: &payload.InvokeCode{Code: code}}
 		tx, err := rpRawTx(mt, s)
 		if err != nil {
 			return nil, err.Error()
@@ -666,6 +694,16 @@ func TestVerifReplicaB(t *testing.T) {
 				chains[ci] = cls
 			}
 			blk := decode(bytesHex)
+			path := in.Chains[ci][bi].Path
+			o["path"] = path
+			if path == "headers-addblock" { // p2p header-first sync: the header reaches the ledger before the block
+				if err := cls.AddHeaders([]*types.Header{blk.Header}); err != nil {
+					o["addErr"] = "AddHeaders: " + err.Error()
+					dead[ci] = true
+					out.Emit(o)
+					continue
+				}
+			}
 			res, err := cls.ExecuteBlock(blk)
 			if err != nil {
 				o["err"] = err.Error()
@@ -674,6 +712,17 @@ func TestVerifReplicaB(t *testing.T) {
 				continue
 			}
 			o["digest"] = rpDigest(res, blk.Transactions)
+			if path == "exec-submit" { // another consensus member: commits its own execution result
+				if err := cls.SubmitBlock(blk, nil, res); err != nil {
+					o["addErr"] = "SubmitBlock: " + err.Error()
+					dead[ci] = true
+				} else {
+					sr, _ := cls.GetStateMerkleRoot(blk.Header.Height)
+					o["stateRoot"] = sr.ToHexString()
+				}
+				out.Emit(o)
+				continue
+			}
 			// the syncing node commits with the state root the proposer announced
 			var aroot common.Uint256
 			if dg, ok := rec["digest"].(map[string]interface{}); ok {
